@@ -121,6 +121,7 @@ def rule2(ctx, v):
             ctx.ob('C06.2', 'spin on empty stack', not [i for i in r if i.op == 'ret' or i in pushes],
                    'an empty pop leads only back to another pop (the late sleeper is awaited)', loc=br.loc)
         ctx.ob('C06.2', 'pops from the given stack', same_value(f, x.args[0], 'a0'), 'the stack popped is the argument', loc=x.loc)
+    lib.chain_discipline(ctx, 'C06.2', f, ('myth_sleep_stack_pop',), 'wake_many_from_stack')
     # loop bounds
     bounds = [ic for ic in f.order if ic.op == 'icmp' and ic.pred == 'slt' and same_value(f, ic.ops[1], n)]
     lp_pop = lib.loop_containing(f, pops[0]) if pops else None
@@ -276,6 +277,9 @@ def run(ctx):
 SYNC = 'src/myth_sync_func.h'
 SQ = 'src/myth_sleep_queue_func.h'
 MUTANTS = [
+    {'name': 'stack wake chain: tail advances only for the first sleeper', 'expect': 'C06.2',
+     'edits': [(SYNC, "      to_wake = myth_sleep_stack_pop_th(s);\n    }\n    to_wake->env = env;\n    to_wake->next = 0;\n    if (to_wake_tail) {\n      to_wake_tail->next = to_wake;\n    } else {\n      to_wake_head = to_wake;\n    }\n    to_wake_tail = to_wake;",
+                "      to_wake = myth_sleep_stack_pop_th(s);\n    }\n    to_wake->env = env;\n    to_wake->next = 0;\n    if (to_wake_tail) {\n      to_wake_tail->next = to_wake;\n    } else {\n      to_wake_head = to_wake;\n      to_wake_tail = to_wake;\n    }")]},
     {'name': 'barrier_init forgets the arrival count (seed2 C06/m2)', 'expect': 'C06.6',
      'edits': [(SYNC, '  /* 2 *(number of threads that reached) + invalid */\n  barrier->state = 0;\n', '')]},
     {'name': 'state reset after the wake', 'expect': 'C06.1',
